@@ -106,7 +106,7 @@ open ClockBound
 
 def recCells (k : Nat) : List Nat := (List.range 6).map (fun i => k * 8 + i + 1) ++ [k % 3]
 
-inductive Prior | missing | empty | garbage | wiped | valid (gen k : Nat)
+inductive Prior | missing | empty | garbage | wiped | valid (gen k : Nat) | validv (version gen k : Nat)
 deriving Repr, BEq, DecidableEq, Inhabited
 
 def Prior.file : Prior → FileA
@@ -115,6 +115,7 @@ def Prior.file : Prior → FileA
   | .garbage => { present := true, len := 41 }
   | .wiped => { present := true, len := 72, magic0 := true, magic1 := true, size := 72 }
   | .valid g k => { present := true, len := 72, magic0 := true, magic1 := true, size := 72, version := 1, gen := g, cells := recCells k }
+  | .validv v g k => { present := true, len := 72, magic0 := true, magic1 := true, size := 72, version := v, gen := g, cells := recCells k }
 
 def cellsText (cs : List Nat) : String := String.intercalate "," (cs.map toString)
 
@@ -136,6 +137,8 @@ structure Observed where
   len2 : Int
   fresh : String
   att2 : String
+  /-- permission bits (octal text) of the segment file afterwards: created with 0666 under umask 022 -/
+  mode : String := "644"
 deriving Repr, BEq, Inhabited
 
 def predict (p : Prior) (k k1 k2 : Nat) : Observed :=
@@ -150,7 +153,7 @@ def predict (p : Prior) (k k1 k2 : Nat) : Observed :=
     fresh := cellsText (({} : ReaderA).snap f2).cache, att2 := (r2.map (fun r => cellsText r.cache)).getD "none" }
 
 def Observed.text (o : Observed) : String :=
-  s!"ev {o.ev} ; crashed open:{o.open1} file:{o.len1} attached:{o.att1} ; restarted inode_same:{if o.inodeSame then 1 else 0} len:{o.len2} fresh:{o.fresh} attached:{o.att2}"
+  s!"ev {o.ev} ; crashed open:{o.open1} file:{o.len1} attached:{o.att1} ; restarted inode_same:{if o.inodeSame then 1 else 0} len:{o.len2} fresh:{o.fresh} attached:{o.att2} mode:{o.mode}"
 
 end ClockBound.Crash
 
@@ -165,7 +168,7 @@ open ClockBound ClockBound.Crash
       obtaining only complete records — the prior one, the empty one if the prior generation was odd,
       or the first incarnation's record — and sees the restarted writer's publication without reopening -/
 def HoldsFile (p : Prior) (k1 k2 : Nat) (o : Observed) : Bool :=
-  o.fresh == cellsText (recCells k2) &&
+  o.fresh == cellsText (recCells k2) && o.mode == "644" &&
   (if p.file.usable then
      o.inodeSame && o.len1 == 72 && o.len2 == 72 && o.open1 == "ok" &&
      (o.att1 == cellsText p.file.cells || o.att1 == cellsText (recCells k1) || o.att1 == cellsText (List.replicate 7 0)) &&
